@@ -10,6 +10,7 @@
    activation / deactivation schedules driven from the bracket-event handlers. *)
 From Coq Require Import List ZArith NArith Bool.
 Import ListNotations.
+From PyccoloV Require gen.Events model.RwFrag model.FragSem proofs.FragSemProofs model.FragLoop proofs.FragLoopProofs.
 From PyccoloV Require Import gen.PyAst model.Tree model.Erase proofs.EraseSound.
 
 Theorem C10_guard_branches_agree : forall sc test b o l,
@@ -48,4 +49,66 @@ Definition gtest : tree := T kBoolOp [] [[T kAnd [] []]; [T kName [SId 4] [[T kL
 Definition c1 (z : Z) : tree := T kConstant [SInt z; SNone] [].
 Example C10_nonvacuous :
   is_guard_test gtest = true /\ post kIfExp [] [[gtest]; [c1 1]; [c1 1]] = Some [c1 1] /\ post kIfExp [] [[gtest]; [c1 1]; [c1 2]] = None.
+Proof. vm_compute. repeat split; reflexivity. Qed.
+
+(* GUARDS AS A THEOREM on a fragment with `while` loops (model/FragLoop.v: FragSem.v + while loops with else clauses, the two guards the
+   rewriter gives each loop, the pristine copy of a loop body, try / finally around an iteration, global guards enabled or not).
+   Handlers may activate and deactivate guards in any way: `pol` is an ARBITRARY function from the stream delivered so far to the set of
+   guards that are on.  Loops run on fuel (iterations per execution of a loop), the same for source and instrumented program.
+   For ALL primitive operations, subscriptions, guard settings, policies, source modules, environments and fuel:
+
+   C10_frag_results - two runs of the instrumented program, under any two subscriptions, guard settings and guard schedules, end with
+                      the same exception (or none, or out of fuel) and the same bindings;
+   C10_frag_plain   - namely those of the program as it is;
+   C10_frag_stream  - the subscribed events arrive exactly as the gated reference `lref_module` writes them out: an iteration that starts
+                      while the loop's body guard is off contributes nothing (nor does a test evaluated while the test guard is off),
+                      an iteration that starts while it is on delivers its events also when the guard is switched off half-way and is
+                      closed by after_while_loop_iter also when it raises; after a deactivation delivery resumes.
+   K-loop ties model, evaluator and reference to the real rewriter, CPython and the real runtime under guard rules. *)
+Theorem C10_frag_results : forall binop cmpop unop truth cval is_and fuel c1 ge1 pol1 c2 ge2 pol2 body r sv sv',
+  forallb FragLoopProofs.lsrc_s body = true ->
+  FragLoop.l_exc (FragLoop.lexec_l binop cmpop unop truth cval is_and c1 pol1 fuel (FragLoop.linstr_module c1 ge1 body) r sv []) =
+  FragLoop.l_exc (FragLoop.lexec_l binop cmpop unop truth cval is_and c2 pol2 fuel (FragLoop.linstr_module c2 ge2 body) r sv' []) /\
+  FragLoop.l_env (FragLoop.lexec_l binop cmpop unop truth cval is_and c1 pol1 fuel (FragLoop.linstr_module c1 ge1 body) r sv []) =
+  FragLoop.l_env (FragLoop.lexec_l binop cmpop unop truth cval is_and c2 pol2 fuel (FragLoop.linstr_module c2 ge2 body) r sv' []).
+Proof. exact FragLoopProofs.loop_results. Qed.
+Print Assumptions C10_frag_results.
+
+Theorem C10_frag_plain : forall binop cmpop unop truth cval is_and fuel c ge pol pol0 body r sv sv',
+  forallb FragLoopProofs.lsrc_s body = true ->
+  FragLoop.l_exc (FragLoop.lexec_l binop cmpop unop truth cval is_and c pol fuel (FragLoop.linstr_module c ge body) r sv []) =
+  FragLoop.l_exc (FragLoop.lexec_l binop cmpop unop truth cval is_and FragSemProofs.no_events pol0 fuel body r sv' []) /\
+  FragLoop.l_env (FragLoop.lexec_l binop cmpop unop truth cval is_and c pol fuel (FragLoop.linstr_module c ge body) r sv []) =
+  FragLoop.l_env (FragLoop.lexec_l binop cmpop unop truth cval is_and FragSemProofs.no_events pol0 fuel body r sv' []).
+Proof. exact FragLoopProofs.loop_plain. Qed.
+Print Assumptions C10_frag_plain.
+
+Theorem C10_frag_stream : forall binop cmpop unop truth cval is_and fuel c ge pol body r sv,
+  forallb FragLoopProofs.lsrc_s body = true ->
+  FragSem.filter_log c (FragLoop.l_log (FragLoop.lexec_l binop cmpop unop truth cval is_and c pol fuel (FragLoop.linstr_module c ge body) r sv [])) =
+  FragSem.filter_log c (FragLoop.rl_log (FragLoop.lref_module binop cmpop unop truth cval is_and c pol fuel ge body r)).
+Proof. exact FragLoopProofs.loop_stream. Qed.
+Print Assumptions C10_frag_stream.
+
+(* non-vacuity: `i = 0; while i < 3: i = i + 1` with load_name and after_while_loop_iter subscribed.  With all guards on, 3 iterations deliver
+   10 + 3 events; with the body guard switched off as soon as the first after_while_loop_iter has been delivered, iterations 2 and 3 are silent:
+   the loads of the test still arrive (the test guard is on), the loads of the body and the two further after_while_loop_iter do not;
+   the result i = 3 is the same *)
+Definition ex_loop : list FragLoop.lstmt :=
+  [FragLoop.LAssign 1 [100] (FragSem.XConst 4 (SInt 0%Z));
+   FragLoop.LWhile 5 (FragSem.XCmp 6 (FragSem.XName 7 100) [kLt] [FragSem.XConst 10 (SInt 3%Z)])
+     [FragLoop.LAssign 11 [100] (FragSem.XBin 14 (FragSem.XName 15 100) kAdd (FragSem.XConst 18 (SInt 1%Z)))] []]%N.
+Definition ex_c : RwFrag.rcfg := {| RwFrag.sub := fun e => existsb (Events.event_eqb e) [Events.E_load_name; Events.E_after_while_loop_iter] |}.
+Definition pol_on : list FragSem.entry -> FragLoop.guard -> bool := fun _ _ => true.
+Definition pol_off_after_first : list FragSem.entry -> FragLoop.guard -> bool :=
+  fun log g => match g with
+               | FragLoop.GBody 5 => negb (existsb (fun en => Events.event_eqb (fst (fst en)) Events.E_after_while_loop_iter) log)
+               | _ => true
+               end.
+Example C10_frag_nonvacuous :
+  forallb FragLoopProofs.lsrc_s ex_loop = true /\
+  let run pol := FragLoop.lexec_l FragSem.Py.binop FragSem.Py.cmpop FragSem.Py.unop FragSem.Py.truth FragSem.Py.cval FragSem.Py.is_and ex_c pol 10
+                   (FragLoop.linstr_module ex_c true ex_loop) (fun _ => None) FragSem.VNone [] in
+  FragLoop.l_env (run pol_on) 100 = Some (FragSem.VInt 3) /\ FragLoop.l_env (run pol_off_after_first) 100 = Some (FragSem.VInt 3) /\
+  length (FragLoop.l_log (run pol_on)) = 10%nat /\ length (FragLoop.l_log (run pol_off_after_first)) = 6%nat.
 Proof. vm_compute. repeat split; reflexivity. Qed.
